@@ -971,6 +971,47 @@ fn do_provide(s: &mut Pool3, ctx: &mut Ctx, actor: usize, amounts: [u128; 3], sl
                     format!("deposit {:?} at amp {amp}: reserves {:?} S {} -> {:?} S {}; exact D {db} -> {da}", amounts, before.reserves, before.share, after.reserves, after.share));
             }
         }
+        // C07: owed protocol fees are not LP reserves on the deposit path, however the depositor lists
+        // the assets. The mint of the contract's own integer solvers over the reserves net of owed fees
+        // is S * (D1 - D0) / D0; a different mint that is exactly what the same computation gives when
+        // the owed fees are attached to the wrong assets (or to none) shows fees being treated as reserves
+        if before.share > 0 && before.pending.iter().any(|p| *p > 0) {
+            ctx.eval("C07");
+            ctx.probe("trio_deposit_with_fees_pending");
+            let mint_for = |r: [u128; 3]| -> Option<U1024> {
+                let d0 = compute_d3_emulated(amp, r)?;
+                let d1 = compute_d3_emulated(amp, [r[0].saturating_add(amounts[0]), r[1].saturating_add(amounts[1]), r[2].saturating_add(amounts[2])])?;
+                if d1 > d0 && d0 > U1024::ZERO { Some(w(before.share) * (d1 - d0) / d0) } else { None }
+            };
+            if let Some(expect) = mint_for(before.reserves) {
+                if expect != w(minted) {
+                    const PERMS: [[usize; 3]; 5] = [[0, 2, 1], [1, 0, 2], [1, 2, 0], [2, 0, 1], [2, 1, 0]];
+                    let gross = [before.reserves[0].saturating_add(before.pending[0]), before.reserves[1].saturating_add(before.pending[1]), before.reserves[2].saturating_add(before.pending[2])];
+                    let mut alts: Vec<[u128; 3]> = vec![gross];
+                    for pm in PERMS {
+                        // asset i is netted by the fee owed in asset pm[i]
+                        let mut r = [0u128; 3];
+                        let mut okp = true;
+                        for i in 0..3 {
+                            match gross[i].checked_sub(before.pending[pm[i]]) {
+                                Some(v) => r[i] = v,
+                                None => okp = false,
+                            }
+                        }
+                        if okp {
+                            alts.push(r);
+                        }
+                    }
+                    for r in alts {
+                        if r != before.reserves && mint_for(r) == Some(w(minted)) {
+                            ctx.fail("C07", "deposit_priced_on_reserves_net_of_fees", "owed_fees_attached_to_wrong_assets", None,
+                                format!("deposit {:?} (listing order {}) into reserves {:?} with owed fees {:?} S {}: minted {minted}; the reserves net of the owed fees give {expect}, netting as {:?} gives exactly the minted amount", amounts, s.perm_next.get(), before.reserves, before.pending, before.share, r));
+                            break;
+                        }
+                    }
+                }
+            }
+        }
         ctx.state_of(&obs_key(&after));
     }
     global_invariants(s, ctx, &before, &after, ok, opname);
